@@ -226,6 +226,57 @@ class Twin:
             self.diffs.append(dict(cmd=list(args) + ["<reader closes early>"], diffs=d[:4]))
         return res, d
 
+    def run_signalled_session(self, signame, ignored):
+        """A long-running command (`cat-file --batch`, fed request by request) receives a signal in the middle of its session, sent
+        to the process the caller started. `ignored`: the caller had set the signal to SIG_IGN before exec (nohup, `trap '' INT`, a
+        background job of a non-interactive shell) - plain git inherits that, ignores the signal and finishes the session; otherwise
+        plain git dies of it. The proxy must end the same way (same exit status / same fatal signal, same bytes answered)."""
+        import signal
+        import subprocess
+        from .world import BIN, REAL_GIT
+        sig = getattr(signal, signame)
+        res = []
+        for w, argv0, extra in ((self.A, [BIN], {"GIT_AI": "git"}), (self.B, [REAL_GIT], {})):
+            w.tick()
+            pre = (lambda: signal.signal(sig, signal.SIG_IGN)) if ignored else None
+            p = subprocess.Popen(argv0 + ["cat-file", "--batch-check"], cwd=w.repo, env=w.env(extra), stdin=subprocess.PIPE, stdout=subprocess.PIPE,
+                                 stderr=subprocess.PIPE, preexec_fn=pre)
+            out = b""
+            try:
+                p.stdin.write(b"HEAD\n"); p.stdin.flush()
+                out += p.stdout.readline()          # the proxied git is up and answering
+                os.kill(p.pid, sig)
+                if ignored:
+                    import time
+                    time.sleep(0.05)
+                    p.stdin.write(b"HEAD^{tree}\n"); p.stdin.flush()
+                    out += p.stdout.readline()
+                p.stdin.close()
+            except (BrokenPipeError, OSError):
+                pass
+            try:
+                out += p.stdout.read()
+                p.stderr.read()
+                p.wait(timeout=60)
+                res.append((p.returncode, out))
+            except subprocess.TimeoutExpired:
+                p.kill()
+                res.append((-999, out))
+        self.stats["commands"] += 1
+        self.stats["signalled_sessions"] = self.stats.get("signalled_sessions", 0) + 1
+        self.log.append(["cat-file", "--batch-check", "<%s %s mid-session>" % (signame, "ignored by the caller" if ignored else "default"), "rc=%s" % res[0][0]])
+        d = []
+        if -999 in (res[0][0], res[1][0]):
+            return res, d
+        if res[0][0] != res[1][0]:
+            d.append(dict(what="termination", proxy=res[0][0], plain=res[1][0], note="negative = killed by that signal; signal %s, %s" % (signame, "SIG_IGN inherited from the caller" if ignored else "default disposition")))
+        elif ignored and res[0][1] != res[1][1]:
+            d.append(dict(what="stdout", proxy=res[0][1][-300:].decode("utf-8", "replace"), plain=res[1][1][-300:].decode("utf-8", "replace")))
+        self.stats["compared"] += 1
+        if d:
+            self.diffs.append(dict(cmd=["cat-file", "--batch-check", "<%s mid-session, %s>" % (signame, "ignored" if ignored else "default")], diffs=d[:4]))
+        return res, d
+
     def check_argv(self, user_argv, shim_off):
         """C18 (CLI level): the argv the recording stand-in saw for the proxied call is the user's argv, apart from the documented
         `-c core.hooksPath=<path>` prefix; help/version normalisations are compared by the caller (in-process check)."""
